@@ -38,6 +38,7 @@ Definition E_CONV : Z := 12.     (* RuntimeError: failed to convert your units *
 Definition E_FOREX : Z := 13.    (* RuntimeError: failed to convert your currency (forex disabled) *)
 Definition E_ATTR : Z := 14.     (* AttributeError *)
 Definition E_DIM : Z := 15.      (* pint.DimensionalityError (not an AttributeError: not caught) *)
+Definition E_FLOAT : Z := 17.    (* ValueError: could not convert string to float *)
 
 Record tables : Type := mkT {
   t_parse : string -> option punit;   (* registry.Quantity(_, text): None when pint cannot parse the text *)
@@ -200,9 +201,16 @@ Definition read_param (T : tables) (sp : pspec) (st : pstate) (x : Q) (u : optio
 
 (* 'Reservoir Depth': value * 1000, CurrentUnits = METERS (unconditionally) *)
 Definition post_depth (st : pstate) : pstate := mkP (p_value st * 1000) (UEnum "meter") (p_provided st).
+(* Economics.Calculate, "for display consistency": a depth > 500 (metres) goes back to value / 1000, CurrentUnits = KILOMETERS *)
+Definition post_depth_back (st : pstate) : pstate :=
+  if Qltb 500 (p_value st) then mkP (p_value st / 1000) (UEnum "kilometer") (p_provided st) else st.
 (* well diameters: anything > 2 "must be inches": value * 0.0254, CurrentUnits = METERS *)
 Definition post_diameter (st : pstate) : pstate :=
   if Qltb 2 (p_value st) then mkP (p_value st * (254 # 10000)) (UEnum "meter") (p_provided st) else st.
+
+(* 'Reservoir Impedance' (WellBores.read_parameters): GPa.s/m**3 -> kPa/(kg/s) "assuming 1000 for density":
+   value * (1E6 / 1E3), CurrentUnits untouched; the report prints value / 1000 next to CurrentUnits *)
+Definition post_impedance (st : pstate) : pstate := mkP (p_value st * 1000) (p_cur st) (p_provided st).
 
 (* ---------- ConvertUnitsBack (called by Outputs._convert_units when not UnitsMatch) ---------- *)
 
@@ -285,6 +293,24 @@ Fixpoint convert_outputs (T : tables) (reqs : list (string * lres)) (outs : list
                   | ROk r' => ROk ((k, o') :: r')
                   end
       end
+  end.
+
+(* ---------- ReadParameter on a one-line list parameter (Name without a space: "Gradients", "Thicknesses") ----------
+   ConvertUnits runs on the FIRST element's text, the range test on its result (out of range: a warning, nothing is
+   stored), then value = [float(e) for e in the raw elements]: a unit suffix on any element makes float() raise.
+   [raw]: the elements of the line as (number, carries a unit suffix?) *)
+Definition read_list_line (T : tables) (sp : pspec) (o : ostate) (x : Q) (u : option string) (raw : list (Q * bool))
+  : rres ostate :=
+  let conv := match u with
+              | None => ROk (x, o_cur o)
+              | Some ut => convert_units T sp (o_cur o) x ut
+              end in
+  match conv with
+  | RErr c => RErr c
+  | ROk (v, cur) =>
+      if Qltb v (s_min sp) || Qltb (s_max sp) v then ROk (mkO (o_vals o) cur (o_pref o))
+      else if existsb snd raw then RErr E_FLOAT
+      else ROk (mkO (map fst raw) cur (o_pref o))
   end.
 
 (* ---------- comparison with what the implementation did (evaluated inside Coq by the harness) ---------- *)
